@@ -1,7 +1,7 @@
-\* quick tier: 2 faults on the most concurrent shape (batch 2, 2 fetchers, 2 submitters), honest source (pairs with an empty page: MigrillianPages.cfg; all kinds together: MigrillianDeep2/Deep6.cfg)
+\* thorough tier: as MigrillianPages with a growing source (3+1)
 CONSTANTS
   MaxIdx = 4
-  FaultKinds = {"short", "fetchErr", "quota", "fatal", "rootErr", "sthErr", "consErr", "cancel", "revoke"}
+  FaultKinds = {"short", "emptyPage", "fetchErr", "cancel", "revoke"}
   KeepHist = FALSE
   SrcSizes = {3}
   Growths = {1}
